@@ -278,7 +278,8 @@ public:
   }
 
   void operator-=(const variable_t &var) override {
-    if (!(is_bottom() || is_top())) {
+    // We cannot skip a top value: its packs can still contain var
+    if (!is_bottom()) {
       if (m_packs.contains(var)) {
         pack_t &pack = m_packs.get_equiv_class(var);
         pack.detach_and_get_absval()->operator-=(var);
@@ -534,7 +535,8 @@ public:
   }
 
   void forget(const variable_vector_t &variables) override {
-    if (!(is_bottom() || is_top())) {
+    // We cannot skip a top value: its packs can still contain the variables
+    if (!is_bottom()) {
       for (const variable_t &v : variables) {
         if (m_packs.contains(v)) {
           pack_t &pack = m_packs.get_equiv_class(v);
